@@ -225,6 +225,10 @@ def gen_cases(ctx):
                                             f"q{i}?.zip", f"{i}[x].zip", f"resü{i}.zip", f"-{i}.zip" if False else f"r_{i}.zip"])})
         if r.random() < 0.12:
             files.append(dict(r.choice(files)))        # the same file named twice on the command line
+        if r.random() < 0.5:
+            r.shuffle(files)                           # command-line order is the input order (not sorted, not "natural")
+        if r.random() < 0.2 and len(files) >= 2:
+            files[0]["file"], files[1]["file"] = "run_10.zip", "run_2.zip"     # given in shell-glob order
         yield {"kind": "table", "files": files, "merge": r.random() < 0.4, "use_filenames": r.random() < 0.35,
                "ignore_title": r.random() < 0.5}
     yield gen_history(r, corpus="C13-3")
